@@ -98,6 +98,7 @@ func runC13(c *fw.Ctx) {
 		}
 		c13ProbePoint(c, e, g)
 		c13GovDelivered(c, e, g)
+		c13Crafted(c, e, g)
 	}
 	noteHalt(e)
 	c.Nontrivial()
